@@ -27,10 +27,28 @@ Trees ==
       ka \in {"plain", "default"}, sa \in BOOLEAN, kb \in Kinds, eb \in BOOLEAN, sb \in BOOLEAN, kc \in Kinds, hc \in BOOLEAN,
       sc \in BOOLEAN, kd \in Kinds, ed \in BOOLEAN, sd \in BOOLEAN, ke \in Kinds, ee \in BOOLEAN, se \in BOOLEAN }
 PathToks == { <<"a">>, <<"a", "1">>, <<"b">>, <<"c">>, <<"c", "1">>, <<"d">>, <<"e">>, <<"x">> }
-Suffixes == { <<>>, <<<<"x">>>>, <<<<"-", "g">>>>, <<<<"-", "g">>, <<"c">>>>, <<DD, <<"c">>>>, <<DD, <<"x">>>> }
+OPTV == <<"-", "-", "o", "p", "t", "=", "v">>
+Suffixes == { <<>>, <<<<"x">>>>, <<<<"-", "g">>>>, <<<<"-", "g">>, <<"c">>>>, <<OPTV, <<"c">>>>, <<OPTV, <<"d">>, <<"-", "g">>>>, <<DD, <<"c">>>>, <<DD, <<"x">>>> }
 Prefixes == UNION { [1..k -> PathToks] : k \in 0..MaxPath }
 
 Init == \E tr \in Trees, p \in Prefixes, s \in Suffixes : Start(tr, p \o s)
 Spec == Init /\ [][Step]_vars
-Emit == Done => PrintT(ToJson([tree |-> tree, line |-> line, outcome |-> outcome, parsable |-> RuleParsable]))
+\* for -simulate on the full family: the tree is reached by random attribute changes, then a line is chosen
+Skeleton == << N(0, <<"a">>, <<<<"a", "1">>>>, "plain", TRUE, FALSE, FALSE), N(0, <<"b">>, <<>>, "plain", TRUE, FALSE, FALSE),
+               N(1, <<"c">>, <<<<"c", "1">>>>, "plain", TRUE, FALSE, FALSE), N(1, <<"d">>, <<>>, "plain", TRUE, FALSE, FALSE),
+               N(3, <<"e">>, <<<<"e", "1">>>>, "plain", TRUE, FALSE, FALSE) >>
+BInit == /\ tree = Skeleton /\ line = <<>> /\ phase = "build" /\ lead = <<>> /\ cur = 0 /\ i = 1 /\ cand = 0 /\ outcome = Pending
+Mutate == /\ phase = "build"
+          /\ \E n \in 1..Len(tree) :
+               \/ \E k \in Kinds : tree' = [tree EXCEPT ![n].kind = k]
+               \/ tree' = [tree EXCEPT ![n].enabled = ~@]
+               \/ tree' = [tree EXCEPT ![n].strict = ~@]
+               \/ tree' = [tree EXCEPT ![n].hidden = ~@]
+          /\ UNCHANGED <<line, phase, lead, cur, i, cand, outcome>>
+Go == /\ phase = "build"
+      /\ \E p \in Prefixes, s \in Suffixes : line' = p \o s
+      /\ phase' = "leading" /\ UNCHANGED <<tree, lead, cur, i, cand, outcome>>
+SimSpec == BInit /\ [][Mutate \/ Go \/ Step]_vars
+Emit == Done => PrintT(ToJson([tree |-> tree, line |-> line, outcome |-> outcome, parsable |-> RuleParsable,
+                               alive |-> [n \in 1..Len(tree) |-> Alive(tree, n)]]))
 =============================================================================
